@@ -72,10 +72,17 @@ func checkEncode(c bytesCase) (h.Info, error) {
 		}
 	}
 	try := b1t6.EncodeToTrytes(data)
+	// the earlier result must stay what it was after further calls (no shared scratch buffers)
+	other := make([]byte, len(data))
+	for i := range other {
+		other[i] = ^data[i]
+	}
+	_ = b1t6.EncodeToTrytes(other)
+	_ = b1t6.EncodeToTrytes(append(other, 0x55, 0xaa))
 	if try != ref.TritsToTrytes(want6) {
 		return info, fmt.Errorf("b1t6.EncodeToTrytes(%x) = %q, tryte form of the trit encoding is %q", data, try, ref.TritsToTrytes(want6))
 	}
-	back := make([]byte, b1t6.DecodedLen(len(want6)))
+	back := bytes.Repeat([]byte{0xff}, b1t6.DecodedLen(len(want6))) // a reused, dirty destination
 	k, err := b1t6.Decode(back, dst[:len(want6)])
 	if err != nil || k != len(data) || !bytes.Equal(back[:k], data) {
 		return info, fmt.Errorf("b1t6.Decode(Encode(%x)) = %x (n=%d), %v", data, back, k, err)
@@ -102,7 +109,7 @@ func checkEncode(c bytesCase) (h.Info, error) {
 			return info, fmt.Errorf("b1t8.Encode(%x) wrote past EncodedLen", data)
 		}
 	}
-	back8 := make([]byte, b1t8.DecodedLen(len(want8)))
+	back8 := bytes.Repeat([]byte{0xff}, b1t8.DecodedLen(len(want8))) // a reused, dirty destination
 	k, err = b1t8.Decode(back8, dst8[:len(want8)])
 	if err != nil || k != len(data) || !bytes.Equal(back8[:k], data) {
 		return info, fmt.Errorf("b1t8.Decode(Encode(%x)) = %x (n=%d), %v", data, back8, k, err)
@@ -166,7 +173,7 @@ func checkDecode(c tritsCase) (h.Info, error) {
 	case "b1t6":
 		want, werr := ref.B1T6Decode(c.Trits)
 		info := classify(c.Codec, len(c.Trits), 6, werr)
-		dst := make([]byte, b1t6.DecodedLen(len(src))+1)
+		dst := bytes.Repeat([]byte{0xa5}, b1t6.DecodedLen(len(src))+1)
 		n, err := b1t6.Decode(dst, src)
 		if e := compare("b1t6.Decode", c.Trits, n, dst, err, want, werr, b1t6.ErrInvalidTrits, b1t6.ErrInvalidLength); e != nil {
 			return info, e
@@ -211,7 +218,7 @@ func checkDecode(c tritsCase) (h.Info, error) {
 	case "b1t8":
 		want, werr := ref.B1T8Decode(c.Trits)
 		info := classify(c.Codec, len(c.Trits), 8, werr)
-		dst := make([]byte, b1t8.DecodedLen(len(src))+1)
+		dst := bytes.Repeat([]byte{0xa5}, b1t8.DecodedLen(len(src))+1)
 		n, err := b1t8.Decode(dst, src)
 		if e := compare("b1t8.Decode", c.Trits, n, dst, err, want, werr, b1t8.ErrInvalidTrit, b1t8.ErrInvalidLength); e != nil {
 			return info, e
